@@ -178,52 +178,81 @@ def r5(ctx):
     if set(names) - {"push", "pop"} or bulk:
         yield VIOL("C11-R5", "normalize_header_value/bulk-copy", "result is produced by bulk operations (%s %s) instead of byte-wise push" % (names, [t["callee"].split("::")[-1] for _, t in bulk]), where=loc(b.j["span"]))
         return
-    pushes = [d for d in muts if d["term"]["callee"].endswith("::push")]
+    # exact finite-state decision (K6b): the loop body is tabulated over all 256 bytes x every value of its boolean
+    # loop-carried locals and must be bisimilar to the specification transducer
+    #   state S (true = "drop the next space", initially true):  ' ' -> emit nothing if S else one ' ', S' = true;  b != ' ' -> emit b, S' = false
+    # and the code after the loop must remove the (at most one) trailing space.
+    import microeval
     ok = True
-    kinds = []
-    for d in pushes:
-        t = d["term"]
-        cv = const_value(op_const(t["args"][1]) or {})
-        conds = guard_conditions(b, d["block"])
-        eq_space = [(c, truth) for a, s, c, truth in conds if c["kind"] == "binop" and c["op"] in ("Eq", "Ne") and 32 in (const_value(op_const(c["l"]) or {}), const_value(op_const(c["r"]) or {}))]
-        is_space_edge = None
-        for c, truth in eq_space:
-            is_space_edge = (c["op"] == "Eq") == bool(truth)
-        flags = [(c, a, s) for a, s, c, truth in conds if c["kind"] == "local" and b.local_ty(c["local"]) == "bool"]
-        if cv == 32:
-            # the single space: only on the is-space edge and only when the flag is false
-            fl_false = any((b.truth_of_edge(a, s) is False) != bool(c.get("neg")) for c, a, s in flags)
-            kinds.append("space")
-            if is_space_edge is not True or not fl_false:
-                ok = False
-                yield VIOL("C11-R5", "normalize_header_value/space-push", "a space is emitted other than once per run of spaces (guard: is-space=%s, previous-not-space=%s)" % (is_space_edge, fl_false), where=b.span_of_block(d["block"]))
-        elif cv is None:
-            kinds.append("byte")
-            sl = b.slice_op(t["args"][1])
-            if 1 not in sl.locals or is_space_edge is not False:
-                ok = False
-                yield VIOL("C11-R5", "normalize_header_value/byte-push", "a byte is copied other than on the not-a-space edge from the input", where=b.span_of_block(d["block"]))
+    init = b.calls(r"Vec::<T(, A)?>::(new|with_capacity)$")
+    if not any(t["dest"]["local"] == acc for _, t in init):
+        ok = False
+        yield VIOL("C11-R5", "normalize_header_value/acc-init", "the result vector does not start empty (Vec::new / with_capacity)", where=loc(b.j["span"]))
+    loop = microeval.byte_filter_loop(b, acc)
+    state, table = microeval.tabulate(b, acc, loop)
+    ctx.extra["nhv_transducer"] = {"state_locals": len(state), "entries": len(table)}
+    # initial values of the state locals: one constant definition outside the loop
+    init_state = []
+    for l in state:
+        ds = [d for d in b.defs().get(l, []) if not b.in_cycle(d["block"])]
+        cv = None
+        if len(ds) == 1 and ds[0]["kind"] == "assign" and ds[0]["stmt"]["rv"]["k"] == "use" and op_const(ds[0]["stmt"]["rv"]["op"]):
+            cv = const_value(op_const(ds[0]["stmt"]["rv"]["op"]))
+        if not isinstance(cv, (bool, int)):
+            raise AnchorMissing("constant initial value of loop-carried local _%d in normalize_header_value" % l)
+        init_state.append(bool(cv))
+    # product exploration: (spec state, implementation state, tail class of the output so far)
+    start = (True, tuple(init_state), "empty")
+    seen = {start}
+    work = [start]
+    witness = None
+    while work and witness is None:
+        S, I, cls = work.pop()
+        for byte in range(256):
+            ev, I2 = table[(byte, I)]
+            want = (() if S else (32,)) if byte == 32 else (byte,)
+            S2 = byte == 32
+            if ev != want:
+                witness = (byte, S, I, ev, want)
+                break
+            cls2 = cls if not ev else ("space" if ev[-1] == 32 else "byte")
+            nxt = (S2, I2, cls2)
+            if nxt not in seen:
+                seen.add(nxt)
+                work.append(nxt)
+    ctx.count(len(table))
+    if witness:
+        ok = False
+        byte, S, I, ev, want = witness
+        what = "leaves the loop early" if ev == "leaves-loop" else "appends %s" % (list(ev),)
+        yield VIOL("C11-R5", "normalize_header_value/transducer", "for input byte 0x%02x %s a space (loop-carried flags %s) the loop %s; the rule (keep non-space bytes, one space per run, none leading) appends %s" % (byte, "right after" if S else "not after", list(I), what, list(want)), where=b.span_of_block(loop["some"]))
+    else:
+        yield PASS("C11-R5", "normalize_header_value/transducer", "loop body tabulated over 256 bytes x %d flag state(s): bisimilar to the specification transducer (%d product states)" % (1 << len(state), len(seen)), [site(b, loop["some"], "loop body")])
+        # after the loop: trailing space removed, nothing else touched
+        m = microeval.Micro(b, acc)
+        rets = set(b.return_blocks())
+        reps = {"empty": [[]], "byte": [[65], [65, 32, 66]], "space": [[65, 32], [32, 65, 32]]}
+        bad = None
+        for S, I, cls in sorted(seen):
+            if S != (cls in ("empty", "space")):
+                continue
+            for rep in reps[cls]:
+                accv = list(rep)
+                env = {l: v for l, v in zip(state, I)}
+                env[loop["n_local"]] = ("opt", None)
+                try:
+                    m.run(loop["none"], env, accv, rets)
+                except microeval.Left:
+                    pass
+                want = list(rep)
+                while want and want[-1] == 32:
+                    want.pop()
+                if accv != want and bad is None:
+                    bad = (rep, accv, want, I)
+        if bad:
+            ok = False
+            yield VIOL("C11-R5", "normalize_header_value/trailing", "after the loop a result ending %s (flags %s) becomes %s, expected %s (trailing space removed, nothing else)" % (bad[0], list(bad[3]), bad[1], bad[2]), where=b.span_of_block(loop["none"]))
         else:
-            ok = False
-            yield VIOL("C11-R5", "normalize_header_value/const-push", "constant byte %r is emitted" % cv, where=b.span_of_block(d["block"]))
-    if sorted(kinds) != ["byte", "space"]:
-        ok = False
-        yield VIOL("C11-R5", "normalize_header_value/push-sites", "expected one byte push and one space push, found %s" % kinds, where=loc(b.j["span"]))
-    # the flag starts true (leading spaces dropped)
-    pops = [d for d in muts if d["term"]["callee"].endswith("::pop")]
-    for d in pops:
-        conds = guard_conditions(b, d["block"])
-        okp = False
-        for a, s, c, truth in conds:
-            if c["kind"] == "call" and re.search(r"PartialEq::eq$", c["callee"]) and truth is True:
-                sl0, sl1 = b.slice_op(c["term"]["args"][0]), b.slice_op(c["term"]["args"][1])
-                if (sl0.has_call(r"slice::<impl \[T\]>::last$") or sl1.has_call(r"slice::<impl \[T\]>::last$")) and (32 in sl0.const_values() + sl1.const_values()):
-                    okp = True
-        if not okp:
-            ok = False
-            yield VIOL("C11-R5", "normalize_header_value/pop", "bytes are removed from the result other than trailing spaces", where=b.span_of_block(d["block"]))
-    if not pops:
-        ok = False
-        yield VIOL("C11-R5", "normalize_header_value/no-trailing-trim", "no trailing-space removal loop", where=loc(b.j["span"]))
+            yield PASS("C11-R5", "normalize_header_value/trailing", "code after the loop evaluated on every reachable (flags, tail class): removes the trailing space only", [site(b, loop["none"], "after loop")])
     if ok:
         yield PASS("C11-R5", "normalize_header_value/shape", "single exit; bytes pushed one by one (non-space byte | one space per run); trailing spaces popped", [loc(b.j["span"])])
